@@ -38,6 +38,11 @@ def make_pool(rng):
     pool.append(call(nets.Net([[ren[x] for x in t] for t in base.inputs], [ren[x] for x in base.output], dims, lab=L)))  # relabelled
     pool.append(call(nets.Net([base.inputs[1], base.inputs[0], base.inputs[2]], base.output, base.dims, lab=L)))      # tensors reordered
     pool.append(call(nets.Net([base.inputs[0], base.inputs[1], (4, 3)], base.output, base.dims, lab=L)))              # axes swapped
+    # sizes swapped between neighbouring labels AND the size dict handed over in swapped key order: the sequence of values
+    # of the dict is the same as for the base call, the label -> size mapping is not
+    sw = call(nets.Net(base.inputs, base.output, [3, 2, 3, 2], lab=L))
+    sw["size_order"] = [2, 1, 4, 3]
+    pool.append(sw)
     return pool
 
 
@@ -63,6 +68,14 @@ def seqs_from_tlc(run):
     return out
 
 
+def sizes_of(c):
+    net = c["net"]
+    sd = net.c_sizes()
+    if c.get("size_order"):
+        sd = {net.lab[ix]: net.dim(ix) for ix in c["size_order"]}
+    return sd
+
+
 def arrays_for(net, rng):
     used = sorted({x for t in net.inputs for x in t})
     return [np.array([rng.randint(-3, 3) for _ in range(int(np.prod([net.dim(x) for x in t])))], dtype=np.float64)
@@ -84,7 +97,11 @@ def replay_seq(run, ct, rng, pool, seq, entry):
     objs = {}
     d = {"seq": seq, "entry": entry, "pool": [{"eq": c["net"].eq(), "sizes": c["net"].c_sizes(), "optimize": str(c["optimize"]),
                                                "kwargs": c["kwargs"]} for c in pool]}
+    entry0 = entry
     for step, i in enumerate(seq):
+        if entry0 == "mixed":
+            entry = rng.choice(ENTRIES[:-1])
+            d.setdefault("entries", []).append(entry)
         c = pool[i - 1]
         net = c["net"]
         opt = c["optimize"]
@@ -102,8 +119,8 @@ def replay_seq(run, ct, rng, pool, seq, entry):
                 unc = ct.array_contract(arrays, net.c_inputs(), net.c_output(), optimize=opt, cache_expression=False, **kw)
             elif entry in ("array_contract_expression", "einsum_expression"):
                 if entry == "array_contract_expression":
-                    ex = ct.array_contract_expression(net.c_inputs(), net.c_output(), net.c_sizes(), optimize=opt, cache=True, **kw)
-                    exu = ct.array_contract_expression(net.c_inputs(), net.c_output(), net.c_sizes(), optimize=opt, cache=False, **kw)
+                    ex = ct.array_contract_expression(net.c_inputs(), net.c_output(), sizes_of(c), optimize=opt, cache=True, **kw)
+                    exu = ct.array_contract_expression(net.c_inputs(), net.c_output(), sizes_of(c), optimize=opt, cache=False, **kw)
                 else:
                     ex = ct.einsum_expression(net.eq(), *net.shapes(), optimize=opt, cache=True, **kw)
                     exu = ct.einsum_expression(net.eq(), *net.shapes(), optimize=opt, cache=False, **kw)
@@ -116,8 +133,8 @@ def replay_seq(run, ct, rng, pool, seq, entry):
                 if gb.shape != refb.shape or not np.allclose(gb, refb, rtol=1e-12, atol=1e-12):
                     ok = False
             else:   # array_contract_path
-                p = ct.array_contract_path(net.c_inputs(), net.c_output(), net.c_sizes(), optimize=opt if opt != "auto" else "greedy", cache=True)
-                pu = ct.array_contract_path(net.c_inputs(), net.c_output(), net.c_sizes(), optimize=opt if opt != "auto" else "greedy", cache=False)
+                p = ct.array_contract_path(net.c_inputs(), net.c_output(), sizes_of(c), optimize=opt if opt != "auto" else "greedy", cache=True)
+                pu = ct.array_contract_path(net.c_inputs(), net.c_output(), sizes_of(c), optimize=opt if opt != "auto" else "greedy", cache=False)
                 same = tuple(map(tuple, p)) == tuple(map(tuple, pu))
                 tree = ct.ContractionTree.from_path(net.c_inputs(), net.c_output(), net.c_sizes(), path=p)
                 got = unc = tree.contract(arrays)
@@ -137,7 +154,7 @@ def nets_ref(net, arrays):
     return nets.refeval(n2, arrays)
 
 
-ENTRIES = ["einsum", "array_contract", "array_contract_expression", "einsum_expression", "array_contract_path"]
+ENTRIES = ["einsum", "array_contract", "array_contract_expression", "einsum_expression", "array_contract_path", "mixed"]
 
 
 def run(run):
@@ -158,8 +175,8 @@ def run(run):
             run.extra["mc_instances"][f"MC_Cache_{o} (negative)"] = {"violates": "NoCrossTalk", "as_expected": True}
     seqs = seqs_from_tlc(run)
     run.extra["sequences_enumerated_by_tlc"] = len(seqs)
-    if len(seqs) != 512:
-        raise tla.MachineryError(f"expected all 8^3 sequences from TLC, got {len(seqs)}")
+    if len(seqs) != 729:
+        raise tla.MachineryError(f"expected all 9^3 sequences from TLC, got {len(seqs)}")
     cases, descs = [], []
     for entry in ENTRIES:
         use = seqs if not quick else rng.sample(seqs, 60)
@@ -197,9 +214,9 @@ def run(run):
                 run.sample({"entry": d["entry"], "sequence": d["seq"], "calls": [d["pool"][k - 1] for k in d["seq"]],
                             "events": cases[i]["events"], "verdict": "ok"})
     run.cov["exhaustive"] = not quick
-    run.cov["rule"] = ("all 512 call sequences of length 3 (enumerated by TLC from Cache.tla) over a pool of 8 calls differing in exactly "
+    run.cov["rule"] = ("all 729 call sequences of length 3 (enumerated by TLC from Cache.tla) over a pool of 9 calls differing in exactly "
                        "one component (output order, one size, optimize value incl. explicit path, one option kwarg, relabelling, tensor "
-                       "order, axis order) x 5 cached entry points (quick: 60 sampled sequences each); caches cleared before each "
+                       "order, axis order) x 5 cached entry points + a mode mixing the entry points inside a sequence (quick: 60 sampled sequences each); caches cleared before each "
                        "sequence; distinct by (entry point, sequence, pool variant)")
 
 
